@@ -161,8 +161,8 @@ func summariseReaderParser(c *core.Ctx, fn *ssa.Function, key string) parserSumm
 			switch x := ins.(type) {
 			case *ssa.Call:
 				r := callRole(plain, x)
-				if strings.HasPrefix(r, "len(") {
-					continue
+				if strings.HasPrefix(r, "len(") || strings.HasPrefix(r, "be16(") {
+					continue // pure: what matters is where the value goes (entry.tag=..., make(...))
 				}
 				sum.items = append(sum.items, "call:"+r)
 				if cal := x.Call.StaticCallee(); cal != nil && cal.Name() == "ReadBytes" {
@@ -287,6 +287,9 @@ func stripConv(v ssa.Value) ssa.Value {
 func be16Range(v ssa.Value, buf ssa.Value) (int64, int64) {
 	if v == nil {
 		return -1, -1
+	}
+	if info, ok := beCompose(stripConv(v)); ok && info.big && info.width == 2 && info.base == buf {
+		return info.off, info.off + 2
 	}
 	call, ok := stripConv(v).(*ssa.Call)
 	if !ok {
@@ -428,6 +431,10 @@ func sliceParserRule(c *core.Ctx, fn *ssa.Function, sums []parserSummary) {
 		return v, prover.Const(0)
 	}
 	offOf := func(v ssa.Value) (prover.Lin, ssa.Value, bool) {
+		if info, ok := beCompose(stripConv(v)); ok && info.big && info.width == 2 {
+			root, off := origin(info.base, 0)
+			return off.Add(prover.Const(info.off), 1), root, true
+		}
 		call, ok := stripConv(v).(*ssa.Call)
 		if !ok {
 			return prover.Lin{}, nil, false
